@@ -168,7 +168,7 @@ func c09Probe(w *mintops.W) {
 	}
 }
 
-func c09Specs(quick bool) []*bfs.Spec {
+func c09OwnSpecs(quick bool) []*bfs.Spec {
 	d := 4
 	if !quick {
 		d = 5
@@ -184,7 +184,7 @@ func c09Specs(quick bool) []*bfs.Spec {
 var c09All = specMap(c09Specs(true), c09Specs(false))
 
 func init() {
-	register(&Prop{ID: "C09", Level: "model_checking", QuickBudget: 100 * time.Second, ThoroughBudget: 25 * time.Minute,
+	register(&Prop{ID: "C09", Level: "model_checking", QuickBudget: 300 * time.Second, ThoroughBudget: 25 * time.Minute,
 		Run: func(c *rt.Ctx) {
 			c.Cov["rule"] = "E3: every history up to the depth bound over {restart, restart+rotate(f), run-time rotate(f) for f in {0,100,1000}, mint on the active keyset, mint naming an inactive / unknown keyset, swap of the oldest unspent proof of each keyset to new outputs at inputs-fee and inputs-fee+1, swap to outputs naming an inactive / unknown keyset, mixed-keyset swaps, melt with inputs exactly sufficient and one short}, at most 4 keysets; in every state every keyset ever seen must still be listed with identical id, 60 keys and fee, ids must equal the independent NUT-02 derivation from the stored seed (m/0'/0'/idx'/i'), exactly one keyset is active and it is the last created, and ListKeysets / GetKeysetById / GetActiveKeyset / the keysets table / the GET handlers agree; the fee boundary is ceil(sum ppk of each input's own keyset / 1000)"
 			runSpecs(c, c09Specs(c.Quick()))
@@ -192,4 +192,9 @@ func init() {
 		Worker: bfs.Worker(c09All),
 		Replay: func(p string) int { return bfs.ReplayFile("C09", c09All, p) },
 	})
+}
+
+// c09Specs: the property's own searches plus the shallow search over the union of all mint-level menus (seqcommon.go).
+func c09Specs(quick bool) []*bfs.Spec {
+	return append(c09OwnSpecs(quick), unionSpecs("C09", c09Probe, quick)...)
 }
